@@ -134,8 +134,14 @@ def gen_delim(rng):
                 if delim.strip() and delim.strip() in cell and not (c == n - 1 and max_splits == n - 1):
                     cell = "z"
             row.append(cell)
+        if delim is not None and rng.random() < 0.06:
+            row = [""] * len(row)
         if delim is not None and not "".join(row).strip():
-            row[0] = "k"
+            # a row whose cells are all empty is still a row when a printable delimiter makes it visible (",,")
+            if delim == delim.strip() and len(row) >= 2 and rng.random() < 0.7:
+                pass
+            else:
+                row[0] = "k"
         rows.append(row)
     pad = rng.random() < 0.5 and strip and delim is not None
     return {"kind": "delim", "delim": delim, "heads": heads, "rows": rows, "strip": strip, "max_splits": max_splits, "pad": pad,
@@ -345,6 +351,7 @@ def run_delim(spec, ctx):
             o[spec["raw_key"]] = rendered
         exp.append(o)
     ctx.count("delimited_tables")
+    ctx.count("delimited_rows_with_only_empty_cells", sum(1 for r in rows if delim is not None and not "".join(r).strip()))
     ctx.count("cells_compared", sum(len(r) for r in rows))
     if got != exp:
         ctx.violation("delimited-table-cells-differ", {"lines": lines, "options": kw, "got": got[:4], "expected": exp[:4]})
